@@ -329,9 +329,9 @@ type sidInfo struct {
 	PID string `json:"pid,omitempty"`
 }
 
+// The caller must hold `connectedMu` (see `doConnect`). It is released here.
 func (s *serverSocket) onConnect() error {
-	s.debug.Log("Socket connected. Locking mutex and writing packet")
-	s.connectedMu.Lock()
+	s.debug.Log("Socket connected. Writing packet")
 	defer s.connectedMu.Unlock()
 
 	// Socket ID is the default room a socket joins to.
